@@ -118,6 +118,9 @@ type Engine struct {
 	fnsSeen      map[string]bool
 	debug        bool
 	inInit       bool
+	pendingAxioms []*Term
+	sha1OutTerm  map[int32]sha1Ref
+	sha1OutConc  map[string]int
 	prefixModelOK bool
 	prefixPCH    []uint64
 	prefixVals   string
@@ -186,6 +189,9 @@ func (e *Engine) resetPath(p Prefix) {
 	e.uuidCounter = 0
 	e.nowCounter = 0
 	e.sha1Apps = e.sha1Apps[:0]
+	e.pendingAxioms = e.pendingAxioms[:0]
+	e.sha1OutTerm = map[int32]sha1Ref{}
+	e.sha1OutConc = map[string]int{}
 	e.res = &PathResult{Reached: map[string]bool{}}
 	e.dom = map[int32]byteSet{}
 	e.entangled = map[int32]bool{}
@@ -230,9 +236,32 @@ func (e *Engine) evalUnder(t *Term) (v uint64, ok bool) {
 	return v, ok
 }
 
+// flushAxioms moves the hash-injectivity instances into the path condition.
+// They are only needed once a condition mentions a hash output directly
+// (equalities between whole outputs are rewritten to input equalities).
+func (e *Engine) flushAxioms() {
+	if len(e.pendingAxioms) == 0 {
+		return
+	}
+	ax := e.pendingAxioms
+	e.pendingAxioms = nil
+	if e.debug {
+		fmt.Fprintf(os.Stderr, "FLUSH %d axioms\n%s\n", len(ax), firstLines(e.stackString(), 4))
+	}
+	for _, a := range ax {
+		e.pc = append(e.pc, a)
+		e.noteAssumed(a)
+		e.link(a)
+	}
+	e.invalidateModel()
+}
+
 func (e *Engine) assume(t *Term) {
 	if t.IsTrue() {
 		return
+	}
+	if t.uf {
+		e.flushAxioms()
 	}
 	e.pc = append(e.pc, t)
 	e.noteAssumed(t)
